@@ -1,6 +1,8 @@
 import ElaVerif.Lemmas.Bloom
 import ElaVerif.Model.Murmur3
 import ElaVerif.Gen.C39
+import ElaVerif.Model.TxFilter
+import ElaVerif.Lemmas.Murmur3
 /-!
 # C39 — bloom filters have no false negatives
 
@@ -236,6 +238,161 @@ theorem C39_gen_source :
        "common.ReadElements(r, &msg.HashFuncs, &msg.Tweak)", "if msg.HashFuncs > MaxFilterLoadHashFuncs",
        "common.ReadElements(r, &msg.Flags)", "common.ReadVarUint(r, 0)", "if err == io.EOF",
        "common.ReadElement(r, &txType)"] := by
+  decide
+
+/-! ## the filter layer the server dispatches to (`elanet/filter`, `elanet/filter/*`) -/
+
+open ElaVerif.TxFilter in
+/-- **Confirmed transactions: no wrapper loses a bloom match.**  For each of the six filter types a
+    peer can select with `txfilter`, `MatchConfirmed` never panics on a filter loaded from the wire,
+    updates the bloom filter exactly as `matchTxAndUpdate` does, and returns true whenever the bloom
+    filter matches (it may add matches: DPoS / next-turn / custom-ID / upgrade / deposit transactions). -/
+theorem C39_dispatch_confirmed (mm : Murmur) (ft : FilterType) (f : Filter) (tx : Tx) (t : TxFacts)
+    (hlen : f.bits.length < 2 ^ 29) :
+    ∃ r g, matchTxAndUpdate mm f tx = some (r, g) ∧
+      matchConfirmed mm ft f tx t = some (r || extraConfirmed ft t, g) ∧
+      (r = true → matchConfirmed mm ft f tx t = some (true, g)) := by
+  obtain ⟨r, g, hrun, _⟩ := matchTx_spec mm f tx hlen
+  refine ⟨r, g, hrun, by simp [matchConfirmed, hrun], ?_⟩
+  intro hr
+  simp [matchConfirmed, hrun, hr]
+
+open ElaVerif.TxFilter in
+/-- Unconfirmed transactions: every filter type except the DPoS side filter answers with the bloom
+    filter's `matchTxAndUpdate` … -/
+theorem C39_dispatch_unconfirmed (mm : Murmur) (ft : FilterType) (f : Filter) (tx : Tx) (t : TxFacts)
+    (hft : ft ≠ .dpos) : matchUnconfirmed mm ft f tx t = matchTxAndUpdate mm f tx := by
+  cases ft <;> first | rfl | exact absurd rfl hft
+
+open ElaVerif.TxFilter in
+/-- … and the DPoS side filter (`sidefilter.MatchUnconfirmed`) does not consult the bloom filter at
+    all: "an unconfirmed transaction paying to a watched address is reported" is **false** for filter
+    type 1 (witness: an all-ones filter and a TransferAsset).  This is how the source is written
+    (the side-chain SPV only wants evidence transactions from the mempool); the oracle documents it
+    as the one exception.  Replayed: `corpus/C39/dpos_unconfirmed.ops`. -/
+theorem C39_dispatch_unconfirmed_dpos_false :
+    ¬ ∀ (mm : Murmur) (f : Filter) (tx : Tx) (t : TxFacts) (g : Filter), f.bits.length < 2 ^ 29 →
+        matchTxAndUpdate mm f tx = some (true, g) →
+        ∃ g', matchUnconfirmed mm .dpos f tx t = some (true, g') := by
+  intro h
+  obtain ⟨g', hg⟩ := h Murmur3.murmur3 ⟨[0xff], 1, 0, []⟩ ⟨[1], 2, [[7]], []⟩ ⟨2, 9, false, 0⟩ ⟨[0xff], 1, 0, []⟩
+    (by decide) (by decide)
+  simp [matchUnconfirmed, tIllegalProposal, tIllegalVote, tIllegalBlock, tIllegalSidechain, tInactiveArbitrators] at hg
+
+open ElaVerif.TxFilter in
+/-- `Filter.Load`: an unknown filter type installs nothing; a known one installs a filter that
+    satisfies the size hypothesis of every theorem above (all six implementations load through
+    `bloom.TxFilter.Load`). -/
+theorem C39_dispatch_load (typ : Nat) (data : Bytes) :
+    (6 ≤ typ → load typ data = none) ∧
+    (∀ ft f, load typ data = some (ft, f) → loadFilter data = some f ∧ f.bits.length < 2 ^ 29) := by
+  constructor
+  · intro h
+    have : filterTypeOf typ = none := by
+      unfold filterTypeOf
+      split <;> first | omega | rfl
+    simp [load, this]
+  · intro ft f h
+    unfold load at h
+    split at h
+    · cases h
+    · cases hl : loadFilter data with
+      | none => simp [hl] at h
+      | some f' =>
+        simp [hl] at h
+        obtain ⟨_, hf⟩ := h
+        subst hf
+        exact ⟨rfl, (C39_load_len data f' hl).2.2⟩
+
+set_option maxRecDepth 20000 in
+/-- T-gen: the dispatch layer as the source has it — filter type numbering, the server's switch, the
+    `Filter.load` body (unknown type ⇒ error), each wrapper's `Load`/`Add` (forwarded) and
+    `MatchConfirmed`/`MatchUnconfirmed` expressions, the first case list of `IsDPOSTransaction`, the
+    tx-type predicates, and the numeric values of the tx types and proposal types the model uses. -/
+theorem C39_gen_dispatch :
+    Gen.C39.filterTypes = [("FTBloom", 0), ("FTDPOS", 1), ("FTNexTTurnDPOSInfo", 2), ("FTCustomID", 3),
+      ("FTUpgrade", 4), ("FTReturnSidechainDepositCoinFilter", 5)] ∧
+    Gen.C39.serverDispatch = ["filter.FTBloom => return bloom.NewTxFilter()",
+      "filter.FTDPOS => return sidefilter.New(s.chain.GetState())",
+      "filter.FTNexTTurnDPOSInfo => return nextturndposfilter.New()",
+      "filter.FTCustomID => return customidfilter.New()", "filter.FTUpgrade => return upgradefilter.New()",
+      "filter.FTReturnSidechainDepositCoinFilter => return returnsidechaindepositcoinfilter.New()"] ∧
+    Gen.C39.filterLoad = ["filterType := filter.Type", "tf := f.newFilter(filterType)",
+      "if tf == nil { return fmt.Errorf(\"unknown txfilter type %d\", filterType) }",
+      "err := tf.Load(filter.Data)", "if err != nil { return err }", "f.filter = tf", "return nil"] ∧
+    Gen.C39.wrappers.map (fun w => (w.1, w.2.1, w.2.2.1)) =
+      [("Filter", "return f.TxFilter.Load(filter)", "return f.TxFilter.Add(data)"),
+       ("NextTurnDPOSInfoFilter", "return f.TxFilter.Load(filter)", "return f.TxFilter.Add(data)"),
+       ("CustomIdFilter", "return f.TxFilter.Load(filter)", "return f.TxFilter.Add(data)"),
+       ("UpgradeFilter", "return f.TxFilter.Load(filter)", "return f.TxFilter.Add(data)"),
+       ("ReturnSidechainDepositCoinFilter", "return f.TxFilter.Load(filter)", "return f.TxFilter.Add(data)")] ∧
+    Gen.C39.wrappers.map (fun w => w.2.2.2.1) =
+      ["return f.TxFilter.MatchConfirmed(tx) || f.state.IsDPOSTransaction(tx) || tx.IsRevertToPOW() || tx.IsRevertToDPOS()",
+       "return f.TxFilter.MatchConfirmed(tx) || tx.IsNextTurnDPOSInfoTx() || tx.IsRevertToPOW() || tx.IsRevertToDPOS()",
+       "return f.TxFilter.MatchConfirmed(tx) || tx.IsNextTurnDPOSInfoTx() || tx.IsCustomIDRelatedTx() || tx.IsRevertToPOW() || tx.IsRevertToDPOS()",
+       "return f.TxFilter.MatchConfirmed(tx) || tx.IsNextTurnDPOSInfoTx() || tx.IsCustomIDRelatedTx() || tx.IsRevertToPOW() || tx.IsRevertToDPOS() || tx.IsSideChainUpgradeTx()",
+       "return f.TxFilter.MatchConfirmed(tx) || tx.IsNextTurnDPOSInfoTx() || tx.IsCustomIDRelatedTx() || tx.IsRevertToPOW() || tx.IsRevertToDPOS() || tx.IsReturnSideChainDepositCoinTx()"] ∧
+    Gen.C39.wrappers.map (fun w => w.2.2.2.2) =
+      ["switch tx.TxType() { case common2.IllegalProposalEvidence: fallthrough case common2.IllegalVoteEvidence: fallthrough case common2.IllegalBlockEvidence: fallthrough case common2.IllegalSidechainEvidence: fallthrough case common2.InactiveArbitrators: return true }; return false",
+       "return f.TxFilter.MatchUnconfirmed(tx)", "return f.TxFilter.MatchUnconfirmed(tx)",
+       "return f.TxFilter.MatchUnconfirmed(tx)", "return f.TxFilter.MatchUnconfirmed(tx)"] ∧
+    Gen.C39.isDPOSTransactionFirstCase = ["common2.RegisterProducer", "common2.UpdateProducer", "common2.CancelProducer",
+      "common2.ActivateProducer", "common2.IllegalProposalEvidence", "common2.IllegalVoteEvidence",
+      "common2.IllegalBlockEvidence", "common2.IllegalSidechainEvidence", "common2.InactiveArbitrators",
+      "common2.ReturnDepositCoin"] ∧
+    Gen.C39.txTypeValues.map (·.2) =
+      [TxFilter.tTransferAsset, TxFilter.tRegisterProducer, TxFilter.tCancelProducer, TxFilter.tUpdateProducer,
+       TxFilter.tReturnDepositCoin, TxFilter.tActivateProducer, TxFilter.tIllegalProposal, TxFilter.tIllegalVote,
+       TxFilter.tIllegalBlock, TxFilter.tIllegalSidechain, TxFilter.tInactiveArbitrators, TxFilter.tNextTurnDPOSInfo,
+       TxFilter.tProposalResult, TxFilter.tCRCProposal, TxFilter.tRevertToPOW, TxFilter.tRevertToDPOS,
+       TxFilter.tReturnSideChainDepositCoin] ∧
+    Gen.C39.proposalTypeValues.map (·.2) = [0x0500, 0x0501, 0x0502, 0x0200, 0x02ff] := by
+  decide
+
+/-- T-gen: **what `matchTxAndUpdate` reads of a transaction** — its hash, its type, the program hash
+    of every output, the previous outpoint of every input, and nothing else (no payload, attribute or
+    program data, for any transaction type).  This is exactly the abstract transaction `Bloom.Tx` of
+    the model, so the tx-level theorems cover every transaction type.  Also the tx-type predicates the
+    wrappers use, and the size limits of the filter messages: a `filteradd` carries at most 520 bytes
+    in 523, a `txfilter` at most 50000 in 50004 (room for any `filterload`, 36012). -/
+theorem C39_gen_tx_reads :
+    Gen.C39.matchTxReads = ["txn.Hash", "txn.TxType", "txn.Outputs", "txOut.ProgramHash", "txn.Inputs", "txIn.Previous"] ∧
+    Gen.C39.txPredicates.take 6 =
+      ["IsNextTurnDPOSInfoTx: return tx.txType == common2.NextTurnDPOSInfo",
+       "IsCustomIDResultTx: return tx.txType == common2.ProposalResult",
+       "IsCRCProposalTx: return tx.txType == common2.CRCProposal",
+       "IsRevertToPOW: return tx.txType == common2.RevertToPOW",
+       "IsRevertToDPOS: return tx.txType == common2.RevertToDPOS",
+       "IsReturnSideChainDepositCoinTx: return tx.txType == common2.ReturnSideChainDepositCoin"] ∧
+    Gen.C39.filterAddMaxLength = 3 + Gen.C39.maxFilterAddDataSize ∧ Gen.C39.maxFilterAddDataSize = 520 ∧
+    Gen.C39.txFilterLoadMaxLength = 4 + Gen.C39.maxTxFilterLoadDataSize ∧
+    Gen.C39.filterLoadMaxLength ≤ Gen.C39.maxTxFilterLoadDataSize ∧ Gen.C39.filterLoadMaxLength = 36012 := by
+  decide
+
+/-! ## MurmurHash3 -/
+
+/-- **The hash the driver runs is MurmurHash3_x86_32 as specified, for every seed and every input**:
+    the line-by-line transcription of `murmurhash3.go` (block loop + `switch dataLen & 3`) equals the
+    specification-shaped definition — input split into little-endian 32-bit words and a tail of
+    `len % 4` bytes, block step folded over the words, tail word `t[0] ^ t[1]<<8 ^ t[2]<<16` mixed in
+    when there is a tail, finaliser.  (No theorem above depends on this; it replaces "validated by
+    comparison only" for the model side.  The Go side stays tied by the `murmur` ops and by the
+    oracle's independent reference.) -/
+theorem C39_murmur_spec (seed : UInt32) (data : List UInt8) :
+    Murmur3.murmur3 seed data = Murmur3.murmurSpec seed data ∧
+    4 * (Murmur3.words data).1.length + (Murmur3.words data).2.length = data.length ∧
+    (Murmur3.words data).2.length < 4 :=
+  ⟨Murmur3.murmur3_eq_spec seed data, Murmur3.words_length data, Murmur3.words_tail_lt data⟩
+
+/-- published test vectors, checked on the specification inside the kernel -/
+theorem C39_murmur_vectors :
+    Murmur3.murmurSpec 0 [] = 0 ∧ Murmur3.murmurSpec 1 [] = 0x514e28b7 ∧
+    Murmur3.murmurSpec 0xffffffff [] = 0x81f16f39 ∧ Murmur3.murmurSpec 0 [0xff, 0xff, 0xff, 0xff] = 0x76293b50 ∧
+    Murmur3.murmurSpec 0 [0x21, 0x43, 0x65, 0x87] = 0xf55b516b ∧
+    Murmur3.murmurSpec 0x5082edee [0x21, 0x43, 0x65, 0x87] = 0x2362f9de ∧
+    Murmur3.murmurSpec 0 [0x21, 0x43, 0x65] = 0x7e4a8634 ∧ Murmur3.murmurSpec 0 [0x21, 0x43] = 0xa0f7b07a ∧
+    Murmur3.murmurSpec 0 [0x21] = 0x72661cf4 ∧ Murmur3.murmurSpec 0xfba4c795 [] = 0x6a396f08 ∧
+    Murmur3.murmurSpec 0 [0x00, 0x11, 0x22, 0x33, 0x44, 0x55, 0x66, 0x77, 0x88] = 0xb4698def := by
   decide
 
 end ElaVerif.C39
